@@ -163,6 +163,8 @@ def build_payload(d: dict, codes: dict[int, int], rng: random.Random | None = No
             tail = variable_tail(f, rng)
             if f["kind"] == "strlau" and isinstance(codes.get(i), (bytes, bytearray)):     # a given text (single-byte encoding)
                 tail = bytes([len(codes[i]) + 2, 1]) + bytes(codes[i])
+            elif f["kind"] == "strlz" and isinstance(codes.get(i), (bytes, bytearray)):
+                tail = bytes([len(codes[i])]) + bytes(codes[i]) + b"\x00"
             if cursor % 8:
                 cursor += 8 - cursor % 8
             data |= int.from_bytes(tail, "little") << cursor
